@@ -20,7 +20,7 @@ P = {
  "C07": ("Proved for the counter logic over all interleavings of atomic steps: successive values, rollover count = number of zeros handed out, extended value strictly increasing, fixed and random start ranges. Partial by nature: that sync.Mutex makes the two methods atomic and race-free is a fact about the Go runtime; it is sampled under the race detector with a linearizability check of recorded concurrent histories.", "randutil Intn(n) in [0,n) is a hypothesis of C07_random_start; the verif hook VerifSetRand drives the boundary draws."),
  "C08": ("Proved for all eight payloaders, every MTU 0-65535, every input and every reachable state: no panic (termination included), fragments 1..MTU bytes (Opus: the input), non-empty, owned (no View in state or output, hence independent of later writes to the input: C08_owned_is_independent). 'Input buffer not written' is outside an immutable model and is observed per case with guard bytes.", "Ownership of the implementation's memory is observed (address overlap + overwrite differential), not proved about Go's allocator."),
  "C09": ("Proved: totality of every depacketizer on arbitrary input and arbitrary receiver state (H264, H265, VP8, VP9, Opus, AV1Depacketizer, AV1Packet); reuse = fresh for VP8/VP9 (and H265, Opus by construction). Ownership of retained fragment state (H264Packet, AV1Depacketizer) is decided by correspondence with a store-free model plus the overwrite differential on the implementation.", "Metadata after a failed call is not compared."),
- "C10": ("Proved: Annex-B split; single/FU-A shape and reassembly; C10_lossless / C10_access_unit at full strength (any sequence of valid units, any MTU 3..65535, any payloader state reachable on valid input, Annex-B or AVC receiver with any stale buffer -> exactly the units the hold-back rule delivers; a held SPS/PPS pair too large for one STAP-A goes out as two units - the former finding KF-C10-stapa-drop, repaired in /repo by f9f14ce); C10_decode_rfc (any plan of the independent RFC 6184 encoder, empty fragments included).", ""),
+ "C10": ("Proved: Annex-B split; single/FU-A shape and reassembly; C10_lossless / C10_access_unit at full strength (any sequence of valid units, any MTU 3..65535, any payloader state reachable on valid input, Annex-B or AVC receiver with any stale buffer -> exactly the units the hold-back rule delivers; a held SPS/PPS pair too large for one STAP-A goes out as two units - the former finding KF-C10-stapa-drop, repaired in /repo by f9f14ce); C10_nothing_lost (the hold-back rule loses and reorders nothing for any sequence of units - several PPS behind one SPS, lone parameter sets, any order; this became true with repair D25); C10_decode_rfc (any plan of the independent RFC 6184 encoder, empty fragments included); IsPartitionHead on single / STAP-A / FU-A payloads.", ""),
  "C11": ("Full statement proved: lossless split with S on the first fragment only, PID 0, picture id forms and +1 mod 2^15 per frame from 0; every RFC 7741 descriptor decodes to its fields for any receiver state; every strict prefix of a descriptor is rejected.", ""),
  "C12": ("Full statement proved: flexible and non-flexible losslessness with B/E/P, picture id step, scalability structure with the frame header's width/height on key frames; C12_bits (bit reader = bit range), C12_header (bitstream syntax -> parser result, profiles 0-3, all colour configurations, sizes 1-65535), C12_decode / C12_truncated for the payload descriptor, totality and reuse.", "Frames with show_existing_frame have no frame type; 65536-pixel sizes wrap in the 16-bit fields (stated bound)."),
  "C13": ("Proved: C13_lossless and C13_lossless_unsized_last (every OBU sequence - any types incl. sequence headers, temporal delimiters, tile lists; any extension headers; last size field present or omitted - and every MTU 2..2^21: the payloader output is the wire image of a well-chained sequence of structured aggregation packets of at most MTU bytes (W = element count or 0 with all elements length-prefixed, no empty element, Z = previous Y, first Z = 0, last Y = 0) whose glued elements are exactly the transmitted OBUs with the size flag cleared, and AV1Depacketizer from any state returns them with size fields, temporal delimiters and tile lists removed); C13_depack_sem (decoder = aggregation-header semantics for any well-chained packet sequence: Z/Y fragments mixed with complete elements, W = 0..3); LEB128 inverse below 2^56 and read bounds; OBU header inverse both ways (2^16 enumeration lifted by forallb_forall). C13_legacy_sem / C13_lossless_legacy: the deprecated AV1Packet + frame assembler path returns exactly the glued elements for any well-chained packet sequence, hence the transmitted OBUs for payloader output (its 8-bit element index, D22, was found while proving this and repaired in /repo). C13_rule_layers / C13_rule_layers_unsized_last: the output is the concatenation, group by group, of self-contained packet runs (first Z = 0, last Y = 0) carrying exactly the group's OBUs, where the groups are cut at every temporal delimiter, sequence header and layer-id change; inside a group all extension headers carry the same temporal and spatial id, and a sequence header / temporal delimiter is the first OBU of its group. The full statement is proved.", ""),
@@ -50,7 +50,7 @@ def main():
             "kind_free_text": "Coq 8.16.1 development (coq/: Base, Model, Spec, Proofs, Properties, Extract), extracted OCaml model runner (runner/driver.ml + extracted model), Go differential harness with property oracles (harness/), Python orchestrator (check), mutation self-test (lib/selftest.py, seeded/)",
         }],
         "checks": [],
-        "notes": "Every check: (1) full make of the Coq development + Print Assumptions under every theorem of Properties/<id>.v + lint (no Admitted/admit/Axiom/Parameter/...); (2) harness rebuilt against /repo with -tags verif; (3) correspondence: corpus + generated cases run on the implementation and on the extracted model, observables compared line by line; (4) the property's own oracle on the implementation; (5) verdict per DESIGN.md section 5 and evidence. Thorough adds a clean rebuild + coqchk -o over all Properties modules (shared stamp), 50-200x the cases, and an in-Coq vm_compute re-evaluation of a 300-case sub-corpus. known_findings.json lists 2 open findings (C03, C14; both pinned by upstream tests) and 25 'fixed:' records.",
+        "notes": "Every check: (1) full make of the Coq development + Print Assumptions under every theorem of Properties/<id>.v + lint (no Admitted/admit/Axiom/Parameter/...); (2) harness rebuilt against /repo with -tags verif; (3) correspondence: corpus + generated cases run on the implementation and on the extracted model, observables compared line by line; (4) the property's own oracle on the implementation; (5) verdict per DESIGN.md section 5 and evidence. Thorough adds a clean rebuild + coqchk -o over all Properties modules (shared stamp), 50-200x the cases, and an in-Coq vm_compute re-evaluation of a 300-case sub-corpus. known_findings.json lists 2 open findings (C03, C14; both pinned by upstream tests) and 26 'fixed:' records.",
         "not_applicable": [],
     }
     for pid in sorted(P):
